@@ -216,6 +216,10 @@ def correspond(ctx, impl, cases, dcases, oracle=True, shard=400):
         stats[tag] = stats.get(tag, 0) + 1
         stats["rejected" if res["bytes"] is None else "encoded"] = stats.get("rejected" if res["bytes"] is None else "encoded", 0) + 1
         ctx.note_case((fname, v0, v1, app, str(body)), nontrivial=len(body) > 0)
+        if tag == "published-boundary" and res["bytes"] is None:
+            ctx.violation("the implementation refuses an operand value inside the published range "
+                          "(4 banks x 16 indices, imm8 0..255, int32 / addresses -2^31..2^31-1)",
+                          dict(flavour=fname, version=[v0, v1], app_id=app, body=body, err=res.get("err")), key=None)
         if oracle and res["oracle_ok"] is False:
             ctx.violation("decode(encode(s)) != s on the implementation" + (f" ({res['err']})" if res.get("err") else ""),
                           dict(flavour=fname, version=[v0, v1], app_id=app, body=body, got=res["dec"], err=res["err"]),
